@@ -185,4 +185,45 @@ theorem SSE2.search_stored (cfg : SSE2Cfg) (lv : Leaves) (K1 : Bytes) (db : DB) 
         rw [l2 a (hend hlt a ha)]
         rfl
 
+/-- SSE-2 with NO collision hypothesis: address distinctness is derived from the C15 theorems (the bit PRP is invertible)
+    and the injectivity of the encoding `keyword ‖ counter` on keywords without a leading NUL byte — the validity
+    condition of the property.  Left: leaf law (HMAC digest length), capacity (`hcap`, `hn`). -/
+theorem SSE2.search_stored_valid (cfg : SSE2Cfg) (lv : Leaves) (hl : LeafLaws lv) (hl8 : 0 < (cfg.l * 8).toNat)
+    (hbits : 0 < cfg.bitsNM) (K1 : Bytes) (db : DB) (I : ITable)
+    (hs : SSE2.setup cfg lv K1 db = .ok I) (hkeys : (db.map (·.1)).Nodup) (hvalid : ∀ p ∈ db, NoLeadingNul p.1)
+    (hcap : ∀ I0 cnt, SSE2.encDb cfg lv K1 db [] [] = .ok (I0, cnt) → ∀ p ∈ cnt, p.2 ≤ cfg.max)
+    (w : Bytes) (ids : List Bytes) (hm : (w, ids) ∈ db) (hn : ids.length ≤ cfg.n.toNat)
+    (tk : List Nat) (htk : SSE2.token cfg lv K1 w = .ok tk) : SSE2.search I tk = ids := by
+  have inj := SSE2.addr_inj cfg lv hl.hmac_len hl8 hbits K1
+  have same_list : ∀ w ids ids', (w, ids) ∈ db → (w, ids') ∈ db → ids = ids' := by
+    intro w ids ids' h1 h2
+    clear hs hcap hm htk hvalid
+    induction db with
+    | nil => cases h1
+    | cons p rest ih =>
+      simp only [List.map_cons, List.nodup_cons] at hkeys
+      simp only [List.mem_cons] at h1 h2
+      rcases h1 with rfl | h1 <;> rcases h2 with h2 | h2
+      · cases h2; rfl
+      · exact absurd (List.mem_map.mpr ⟨(w, ids'), h2, rfl⟩) hkeys.1
+      · subst h2; exact absurd (List.mem_map.mpr ⟨(w, ids), h1, rfl⟩) hkeys.1
+      · exact ih hkeys.2 h1 h2
+  have addrOf_ok : ∀ w j a, SSE2.addrOf cfg lv K1 w j = some a → SSE2.addr cfg lv K1 w (j : Int) = .ok a := by
+    intro w j a h
+    unfold SSE2.addrOf at h
+    split at h
+    · rename_i a' ha; cases h; exact ha
+    · cases h
+  apply SSE2.search_stored cfg lv K1 db I hs hkeys ?_ hcap w ids hm hn ?_ tk htk
+  · intro w ids i w' ids' i' a h1 h2 hi hi' he he'
+    have := inj w w' (1 + i) (1 + i') a (hvalid _ h1) (hvalid _ h2) (addrOf_ok _ _ _ he) (addrOf_ok _ _ _ he')
+    exact ⟨this.1, by omega⟩
+  · intro hlt a ha hst
+    obtain ⟨w', ids', i, h1, hi, he⟩ := hst
+    have := inj w w' (1 + ids.length) (1 + i) a (hvalid _ hm) (hvalid _ h1) ha (addrOf_ok _ _ _ he)
+    obtain ⟨rfl, hji⟩ := this
+    have := same_list w ids ids' hm h1
+    subst this
+    omega
+
 end SSEPy.C01
